@@ -13,7 +13,7 @@ ID = "C11"
 LEVEL = "exploration"
 TECHNIQUE = "Hypothesis-generated screens x every shipped generator/smoother/hold-out function; multiset conservation / inclusion / partition oracles on (sample, treatments, doses, observation bits[, plate, mask]) rows"
 RULE = (
-    "screens with duplicate conditions, single-agent rows, 1..5 samples, observed and unobserved plates of any size (single-sample-per-plate and "
+    "screens (two treatment slots; one in five with three or one) with duplicate conditions, single-agent rows, partial combinations, 1..5 samples, observed and unobserved plates of any size (single-sample-per-plate and "
     "arbitrary layouts); every shipped generator (PlatePermutation with/without force_include, SampleSegregating, Pairwise) and smoother (MergeMin, "
     "MergeTopBottom, FixedSize, OptimalSize, NPlatePerCellLine, BatchieEnsemble) with drawn parameters and generator seed (3 operators per case), and both "
     "hold-out functions with fraction from {0,1,.1,.15,.5} U [0,1]. Operators that raise are counted, not flagged. Non-trivial = input has a duplicate "
@@ -38,7 +38,7 @@ def _case(draw):
         sc = draw(retro.pairwise_screen())
         ops = [{"name": "Pairwise", "subset_size": draw(st.sampled_from([1, 1, 2])), "anchor_size": draw(st.sampled_from([0, 0, 1, 2]))}, draw(retro.operator(["SampleSegregating", "PlatePermutation", "FixedSize", "OptimalSize"]))]
     else:
-        sc = draw(retro.retro_screen())
+        sc = draw(retro.retro_screen(arity=draw(st.sampled_from([2, 2, 2, 3, 1]))))
         names = retro.GENERATORS + retro.SMOOTHERS
         if not sc["ssp"]:
             names = [n for n in names if n not in retro.NEEDS_SINGLE_SAMPLE_PLATES] + ["MergeMin"]
